@@ -144,7 +144,10 @@ class C07:
                 if d:
                     p = owner.get(i)
                     tname = prog["steps"][p]["t"] if p is not None else prog["sources"][i]["t"]
-                    self.ck.impl_fail(f"C07/value-differs-from-runtime/{tname}",
+                    key = f"C07/value-differs-from-runtime/{tname}"
+                    if tname == "inline_5_old_mixed":
+                        key += "/" + run_["backend"]      # the two evaluators treat an opset-11 Softmax differently (known finding)
+                    self.ck.impl_fail(key,
                                       f"the value propagated for an output of {tname} (backend {run_['backend']}) is not what onnxruntime "
                                       f"computes for that Var in the built model: {d}", prog, run_["backend"], run_["plan"], p,
                                       {"env_index": i, "difference": d, "propagated": str(env[i]._get_value())[:300],
